@@ -232,6 +232,53 @@ func checkC08Loader(p *Prog, r *Report, ru *Rule, load *ssa.Function) {
 	readErr := extractOf(readCall, 1)
 	cannotBeNotExist := map[string]bool{"crypto/tls.X509KeyPair": true, "crypto/x509.ParseCertificate": true, "encoding/pem.Decode": true}
 	nerr, nok := 0, 0
+	var judgeErr func(ev ssa.Value, c string, ret *ssa.Return)
+	judgeErr = func(ev ssa.Value, c string, ret *ssa.Return) {
+		call, ok := ev.(*ssa.Call)
+
+		if !ok {
+			if ev == ssa.Value(readErr) {
+				ru.OK(c, posOf(ret), "returns the file read's own error")
+				return
+			}
+			ru.Unproven(c, posOf(ret), "error value not understood (%s)", describeValue(ev))
+			return
+		}
+		switch calleeName(call.Common()) {
+		case "errors.New":
+			ru.OK(c, posOf(ret), "a fresh error, wraps nothing")
+		case "fmt.Errorf":
+			f, _ := constString(call.Common().Args[0])
+			if !strings.Contains(f, "%w") {
+				ru.OK(c, posOf(ret), "a fresh error, wraps nothing")
+				return
+			}
+			wrapped := false
+			for _, e := range variadicElems(call.Common()) {
+				if !typeIsError(e) {
+					continue
+				}
+				wrapped = true
+				for _, src := range errorSources(e, 0) {
+					switch {
+					case src.Call == readCall && nil != readCall:
+						ru.OK(c, posOf(ret), "wraps the error of reading the cache file itself (%s)", src.Name)
+					case "fresh" == src.Name:
+						ru.OK(c, posOf(ret), "wraps a fresh error")
+					case cannotBeNotExist[src.Name]:
+						ru.OK(c, posOf(ret), "wraps an error of %s, which is never fs.ErrNotExist", src.Name)
+					default:
+						ru.Bad(c, posOf(ret), "wraps (%%w) an error of %s: if that is fs.ErrNotExist (e.g. a member missing from a torn archive) the caller takes the damaged cache for a missing one, regenerates and overwrites it", src.Name)
+					}
+				}
+			}
+			if !wrapped {
+				ru.OK(c, posOf(ret), "a fresh error")
+			}
+		default:
+			ru.Unproven(c, posOf(ret), "error built by %s", calleeName(call.Common()))
+		}
+	}
 	eachInstr(load, func(i ssa.Instruction) {
 		ret, ok := i.(*ssa.Return)
 		if !ok || 2 != len(ret.Results) {
@@ -295,50 +342,18 @@ func checkC08Loader(p *Prog, r *Report, ru *Rule, load *ssa.Function) {
 			return
 		}
 		nerr++
-		c := fmt.Sprintf("%s:error#%d", fnName(load), nerr)
-		/* What does the returned error wrap? */
-		call, ok := ev.(*ssa.Call)
-		if !ok {
-			if ev == ssa.Value(readErr) {
-				ru.OK(c, posOf(ret), "returns the file read's own error")
-				return
+		/* What does the returned error wrap?  (One verdict per value the
+		returned variable can hold.) */
+		leaves := phiLeaves(ev)
+		for k, lf := range leaves {
+			if isNilConst(lf.V) {
+				continue
 			}
-			ru.Unproven(c, posOf(ret), "error value not understood (%s)", describeValue(ev))
-			return
-		}
-		switch calleeName(call.Common()) {
-		case "errors.New":
-			ru.OK(c, posOf(ret), "a fresh error, wraps nothing")
-		case "fmt.Errorf":
-			f, _ := constString(call.Common().Args[0])
-			if !strings.Contains(f, "%w") {
-				ru.OK(c, posOf(ret), "a fresh error, wraps nothing")
-				return
+			c := fmt.Sprintf("%s:error#%d", fnName(load), nerr)
+			if len(leaves) > 1 {
+				c = fmt.Sprintf("%s.%d", c, k+1)
 			}
-			wrapped := false
-			for _, e := range variadicElems(call.Common()) {
-				if !typeIsError(e) {
-					continue
-				}
-				wrapped = true
-				for _, src := range errorSources(e, 0) {
-					switch {
-					case src.Call == readCall && nil != readCall:
-						ru.OK(c, posOf(ret), "wraps the error of reading the cache file itself (%s)", src.Name)
-					case "fresh" == src.Name:
-						ru.OK(c, posOf(ret), "wraps a fresh error")
-					case cannotBeNotExist[src.Name]:
-						ru.OK(c, posOf(ret), "wraps an error of %s, which is never fs.ErrNotExist", src.Name)
-					default:
-						ru.Bad(c, posOf(ret), "wraps (%%w) an error of %s: if that is fs.ErrNotExist (e.g. a member missing from a torn archive) the caller takes the damaged cache for a missing one, regenerates and overwrites it", src.Name)
-					}
-				}
-			}
-			if !wrapped {
-				ru.OK(c, posOf(ret), "a fresh error")
-			}
-		default:
-			ru.Unproven(c, posOf(ret), "error built by %s", calleeName(call.Common()))
+			judgeErr(lf.V, c, ret)
 		}
 	})
 	if 0 == nok {
